@@ -229,6 +229,7 @@ func cmdList(args []string) int {
 }
 
 var runNotes = map[string]bool{}
+var conformance *confResult
 var axiomModel = "not run in the quick tier (run by the thorough tier and by `govc axiom-model`)"
 
 // exportedKey: is the function or method named by a contract key part of the package API?
@@ -351,6 +352,10 @@ func cmdCheck(args []string) int {
 		if ok != n {
 			fmt.Fprintln(os.Stderr, "infrastructure failure (no verdict): background axioms are not valid in the reference model:", det)
 			return 2
+		}
+		conformance = runConformance(o, prop)
+		if len(conformance.Failed) > 0 {
+			fmt.Fprintf(os.Stderr, "ASSUMPTION-VIOLATED: conformance test(s) of assumed dependency contracts fail: %v\n%s\n", conformance.Failed, conformance.Output)
 		}
 	}
 	all = pruneCovers(all)
@@ -560,6 +565,9 @@ func report(o *Options, w *World, prop string, seed int, all []*Obligation, repo
 	if len(vacuous) > 0 || nProof == 0 {
 		exit = maxInt(exit, 2)
 	}
+	if conformance != nil && len(conformance.Failed) > 0 {
+		exit = maxInt(exit, 2) // the proofs are relative to an assumption the installed dependency does not meet: no verdict
+	}
 	// evidence
 	var samples []map[string]interface{}
 	for i, ob := range all {
@@ -645,7 +653,7 @@ func report(o *Options, w *World, prop string, seed int, all []*Obligation, repo
 			"assumed_contracts": asm, "uncontracted_callees": hav,
 			"vacuity":             map[string]interface{}{"covers": nCover, "covered": nCovered, "vacuous": len(vacuous)},
 			"solver_splits":       d.splits,
-			"slowest_obligations": slowest, "timeout_s": d.timeoutS, "axiom_model": axiomModel, "solver_answers": d.answers,
+			"slowest_obligations": slowest, "timeout_s": d.timeoutS, "axiom_model": axiomModel, "assumed_contract_conformance_tests": conformance, "solver_answers": d.answers,
 			"contract_token_scan": scan, "per_function": reports,
 			"failed": names(failed), "undecided": names(undecided), "known_findings_reported": knownLines,
 		},
